@@ -864,6 +864,31 @@ func TestC15(t *testing.T) {
 									evalEnum(c, "ops", cs, checkC15, &nviol)
 								}
 							}
+							// the same with a partial vector: of the optional metrics only g is written
+							// (v3; v2 groups are all-or-nothing), then another optional field is assigned
+							if ver == 3 && g.Level > spec.Base && variant == 0 {
+								pv := spec.Vec{Ver: v.Ver}
+								for _, tk := range v.Toks {
+									if m := spec.ByName(spec.V3Metrics, tk.Name); m.Level == spec.Base || m == g {
+										pv.Toks = append(pv.Toks, tk)
+									}
+								}
+								pvec := pv.String()
+								for _, f := range ms {
+									if f == g || f.Level == spec.Base {
+										continue
+									}
+									for idx := 1; idx < len(f.Codes); idx++ {
+										i++
+										if nviol > 0 || !mine(i) {
+											continue
+										}
+										cs := opsCase{Ver: ver, Level: int(lv), Input: pvec, Ops: []op{{Kind: "snapshot"}, {Kind: "set", Field: f.Name, Index: idx}}}
+										c.rec.Case("pairwise-transition-sweep", fmt.Sprintf("%+v", cs), true, "sweep:partial-vector-then-assignment")
+										evalEnum(c, "ops", cs, checkC15, &nviol)
+									}
+								}
+							}
 						}
 					}
 				}
